@@ -236,8 +236,18 @@ def streams(ctx):
 
     def ref_ops(ops_, impl):
         return [o.replace("psgen ", "psgenref ", 1).replace("pscount ", "pscountref ", 1) for o in ops_]
-    out.append(Stream("pscore-spec", ops, oracle=True, model_ops=ref_ops, classify=regime, timeout=1800))
+    # first in the list: when something breaks, its disagreements (failing inputs of the property) are reported first
+    out.insert(0, Stream("pscore-spec", ops, oracle=True, model_ops=ref_ops, classify=regime, timeout=1800))
     return out
+
+
+def search(ctx, proof_broken, bad, disagreements):
+    """witness search of the core half: a disagreement of the oracle stream (real code vs PROVED reference sieve) is itself a
+    failing input of C18, so those are reported before the mirror disagreements (runner.default_search reports the first five)."""
+    from ..runner import default_search
+    dis = sorted(disagreements, key=lambda d: 0 if (d.get("oracle") and not d.get("model_crash")) else 1)
+    default_search(ctx, proof_broken, bad, dis)
+    return True
 
 
 def generated_obligations():
